@@ -1106,6 +1106,10 @@ func (u *Unit) findImport(pkg *types.Package, name string) *types.Package {
 	if pkg == nil {
 		return nil
 	}
+	// the local name an import has in the package's own source files decides
+	if p := u.eng.importByLocalName(pkg, name); p != nil {
+		return p
+	}
 	for _, imp := range pkg.Imports() {
 		if imp.Name() == name {
 			return imp
